@@ -332,3 +332,47 @@ def check(ctx):
     ctx.decide("self.header.length =" in src and "get_length()" in src and "get_padding_length()" in src,
                "R-SIB/pop-length", f"{msg.qual}.pop", msg.where(pop), "pop subtracts length + padding from the Message Length",
                "DiameterMessage.pop does not update the Message Length by the removed AVP's length + padding", key="pop_len")
+    ctx.clause = "3-error-flag"
+    _copy_is_independent(ctx, repo, msg)
+    # the Message Length refreshed after the Session-Id was replaced counts get_padding_length() per AVP: it must be the padding
+    # that dump() emits for the CURRENT data (shared with C01)
+    ctx.clause = "2-session-id"
+    from .c01 import padding_accessor
+    padding_accessor(ctx, repo, ctx.need(repo.cls("bromelia.base.DiameterAVP"), "DiameterAVP"))
+
+
+def _copy_is_independent(ctx, repo, msg):
+    """decorate_answer writes identifiers, E bit and length INTO the header of the answer the handler returned.  Handlers stamp
+    answers out of templates with DiameterMessage.copy(): the copy must not share its header (nor any other mutable part) with
+    the template, or what one answer sets (the E bit is only ever set, never cleared) shows up in every later one."""
+    from .. import sym as _sy
+    from ..astutil import strip_doc
+    cp = msg.methods.get("copy")
+    if cp is None:
+        return
+    ok, shown = True, []
+    n = 0
+    for p_ in _sy.Interp(log_calls=True).run(strip_doc(cp.body), _sy.PathState({}, [], [])):
+        if p_.term != "return":
+            continue
+        n += 1
+        v = p_.value
+        shown.append(_sy.show(v)[:60])
+        whole = isinstance(v, tuple) and v and v[0] == "call" and _sy.show(v[1]) in ("deepcopy", "copy.deepcopy") \
+            and v[2] == (("name", "self"),)
+        if whole:
+            continue
+        # built by hand: the header given to the result must itself be a deep copy of this message's header
+        hdr_ok = False
+        for e in p_.effects:
+            if e[0] in ("storeattr", "store", "setitem"):
+                txt = " ".join(_sy.show(x) for x in e[1:] if isinstance(x, (tuple, str)))
+                if "header" in txt and ("deepcopy(self.header)" in txt or "deepcopy(self._header)" in txt):
+                    hdr_ok = True
+        ok = ok and hdr_ok
+    ctx.decide(ok and n > 0, "R-ALIAS/copy-independent", f"{msg.qual}.copy", msg.where(cp),
+               "copy() returns a deep copy: template and copy share no header",
+               f"DiameterMessage.copy() returns {shown}: the copy is not a deep copy of the message, its header (and every attribute that "
+               f"is not re-created) is the template's own object - decorate_answer then writes the request's identifiers, the length and "
+               f"the E bit into the shared header, so an error flag set for one answer stays set in the template and in every later "
+               f"copy, including success answers", key="copy")
